@@ -22,10 +22,12 @@ PROP = "C20"
 THEOREM_FILE = "Props/C20.v"
 CHECKER = "Corr.C20"
 SHARD = 120
-RULE = ("8 base scenarios (forward/reversed x single/multi-file forcing x discrete/continuous release) with random "
-        "time step, frame spacing, pre-roll, file split, release table, grid size and optional legal subgrid; every "
+RULE = ("8 base scenarios (forward/reversed x single/multi-file forcing x discrete/continuous release), each once with a "
+        "duration of whole time steps and once with a ragged duration (Nsteps*dt + dt/3 or + dt - 1 s; quick: a subset of "
+        "the injections there), with random time step, frame spacing, pre-roll, file split, release table, grid size and optional legal subgrid; every "
         "single fault of the list injected into every base scenario: forcing starting one step after the minimum time "
-        "/ ending one step before the maximum time (and the tight valid neighbours: first frame exactly at the minimum "
+        "/ ending one step before the maximum time, first / last frame one second inside the window [min(start, stop), "
+        "max(start, stop)], last frame at min + Nsteps*dt (inside the sub-dt gap of a ragged duration) (and the tight valid neighbours: first frame exactly at the minimum "
         "time, last exactly at the maximum), two adjacent frames swapped (inside a file, across a file boundary), a "
         "frame duplicated (across a file boundary when multi-file), start / stop / dt removed, dt = 0, direction flag "
         "flipped, start = stop, all release rows before the start / after the stop / exactly at the stop (and the valid "
@@ -406,11 +408,13 @@ def eval_case(desc, ctx):
 # ------------------------------------------------------------------------------------------------
 # generator
 # ------------------------------------------------------------------------------------------------
-def base_scenario(rng, rev, multi, cont):
+def base_scenario(rng, rev, multi, cont, ragged=False):
+    """ragged: the duration is NOT a whole number of time steps (the last dt/3 or dt - 1 s are not stepped)"""
     dt = rng.choice([60, 120, 300, 600])
     nsteps = rng.randint(4, 9)
     t_lo = rng.randint(100, 200) * 600
-    t_hi = t_lo + nsteps * dt
+    extra = rng.choice([dt // 3, dt - 1]) if ragged else 0
+    t_hi = t_lo + nsteps * dt + extra
     start, stop = (t_hi, t_lo) if rev else (t_lo, t_hi)
     sg = -1 if rev else 1
     # frames: spacing k*dt, pre-roll and post-roll of 0..2 frames, on or off the model time grid
@@ -450,7 +454,7 @@ def base_scenario(rng, rev, multi, cont):
     elif r < 0.4:
         subgrid = [1, -1, 1, -1]
     return {
-        "rev0": rev, "multi0": multi, "cont0": cont, "label": [],
+        "rev0": rev, "multi0": multi, "cont0": cont, "label": ["ragged-duration"] if ragged else [],
         "cf": "ok", "sec": {n: "present" for n in ("time", "forcing", "release", "tracker", "output")},
         "grid_has_module": True, "grid_has_filename": rng.random() < 0.6, "forcing_has_module": True,
         "forcing_has_filename": True,
@@ -503,6 +507,35 @@ def f_forcing_early_end(d, rng):
     frames = [t for f in d["files"] for t in f]
     keep = [t for t in frames if t < hi - d["dt"]]
     refile(d, keep + [hi - d["dt"]])
+
+
+def f_forcing_first_inside(d, rng):
+    """first frame one second inside the true window [min(start, stop), max(start, stop)]"""
+    if not timed(d):
+        return False
+    lo, _ = lo_hi(d)
+    frames = [t for f in d["files"] for t in f]
+    refile(d, [lo + 1] + [t for t in frames if t > lo + 1])
+
+
+def f_forcing_last_inside(d, rng):
+    """last frame one second inside the true window (with a ragged duration: inside the sub-dt gap)"""
+    if not timed(d):
+        return False
+    _, hi = lo_hi(d)
+    frames = [t for f in d["files"] for t in f]
+    refile(d, [t for t in frames if t < hi - 1] + [hi - 1])
+
+
+def f_forcing_last_at_step_end(d, rng):
+    """last frame at the end of the last whole time step, min(start, stop) + Nsteps * dt: short of the window
+    when the duration is ragged (a valid tight end otherwise)"""
+    if not timed(d):
+        return False
+    lo, hi = lo_hi(d)
+    end = lo + ((hi - lo) // d["dt"]) * d["dt"]
+    frames = [t for f in d["files"] for t in f]
+    refile(d, [t for t in frames if t < end] + [end])
 
 
 def v_forcing_tight(d, rng):
@@ -713,7 +746,8 @@ def mk_sub(kind):
 
 
 INJECTORS = [
-    f_forcing_late, f_forcing_early_end, v_forcing_tight, f_swap_inside, f_swap_boundary, f_duplicate,
+    f_forcing_late, f_forcing_early_end, f_forcing_first_inside, f_forcing_last_inside, f_forcing_last_at_step_end,
+    v_forcing_tight, f_swap_inside, f_swap_boundary, f_duplicate,
     f_no_start, f_no_stop, f_no_dt, f_dt_zero, f_flip, f_start_eq_stop,
     f_rel_before, f_rel_after, f_rel_at_stop, v_rel_at_start, v_rel_last_step, v_rel_cont_before,
     f_rel_nopos, f_rel_rowgap, f_rel_missing, f_rel_empty_name, f_rel_nokey,
@@ -725,6 +759,13 @@ INJECTORS = [
     mk_cf("missing"), mk_cf("badsyntax"), mk_cf("badversion"),
     *[mk_sub(k) for k in ("i_order", "i_order2", "j_order", "i_beyond", "j_beyond", "zero", "neg_beyond",
                           "neg_j_order", "legal_neg", "legal_inner")],
+]
+
+
+# injected into the base scenarios with a ragged duration (the window ends are what differs there)
+RAGGED_INJECTORS = [
+    f_forcing_late, f_forcing_early_end, f_forcing_first_inside, f_forcing_last_inside, f_forcing_last_at_step_end,
+    v_forcing_tight, f_duplicate, f_flip, f_rel_after, f_rel_at_stop, v_rel_at_start, v_rel_last_step,
 ]
 
 
@@ -759,6 +800,13 @@ def gen_cases(ctx):
                     for _k in range(npairs):
                         f, g = rng.sample(INJECTORS, 2)
                         d = inject(base, [f, g], rng)
+                        if d is not None:
+                            cases.append(d)
+                    # the same scenario class with a duration that is not a whole number of steps
+                    base = base_scenario(rng, rev, multi, cont, ragged=True)
+                    cases.append(base)
+                    for f in (RAGGED_INJECTORS if ctx.quick else INJECTORS):
+                        d = inject(base, [f], rng)
                         if d is not None:
                             cases.append(d)
     return cases
